@@ -7,8 +7,8 @@ import numpy as np
 from .common import ints, fhex
 
 PROP_FILE = "Properties/C10.v"
-GEN = ["GenC10"]
-RUN_FILES = ["Model/C10_run.v"]
+GEN = ["GenC10", "GenC10imp"]
+RUN_FILES = ["Model/C10_run.v", "Model/C10_imp_run.v"]
 
 CRS = ["+proj=eqc +lon_0=0 +ellps=WGS84",
        "+proj=laea +lat_0=50 +lon_0=10 +ellps=WGS84",
@@ -20,7 +20,7 @@ SPAN = [(15e6, 8e6), (2e6, 2e6), (170.0, 80.0), (15e6, 10e6), (3e6, 3e6)]
 
 HDR = ("From Coq Require Import ZArith List Bool PrimFloat.\n"
        "From PR Require Import Base.Num Base.F64 Base.ListX Base.Slice Model.Grid Model.SliceArea Model.Stack "
-       "Model.LonlatPaths Model.C10_run Gen.GenC10.\nImport ListNotations.\nOpen Scope Z_scope.\n")
+       "Model.LonlatPaths Model.C10_run Gen.GenC10 Model.ImpStack Gen.GenC10imp Model.C10_imp_run.\nImport ListNotations.\nOpen Scope Z_scope.\n")
 
 
 # ------------------------------------------------------------------ Coq literals
@@ -608,6 +608,12 @@ def run(ctx):
             ctx.add_failure("C10.stack.shape", "stack of %s has height %s width %s" % (members, o["height"], o["width"]), rep)
         if c["mode"] == 0 and len(o["defs"]) != 1:
             ctx.add_failure("C10.stack.merge", "vertically adjacent members %s are not merged: %d defs" % (members, len(o["defs"])), rep)
+        aa = o.get("after_append")
+        if aa is not None:
+            ctx.count("stack_append_after_memo")
+            if "error" in aa or not (aa["lons_none"] and aa["hash_none"]):
+                ctx.add_failure("C10.stack.append_memo", "after get_lonlats() and hash() on a stack of %s, append() leaves the memoised "
+                                "lons/lats/hash in place: %s" % ([[m["h"], m["w"]] for m in members], aa), rep)
         if not c["lonlats"]:
             ctx.case(("st", repr(members)), nontrivial=len(live) >= 2, sample=samp({"stack": {"members": members}, "impl_ndefs": len(o["defs"])}))
             continue
@@ -658,6 +664,8 @@ def run(ctx):
     for j in range(0, len(L_st), 400):
         texts.append(("c10_stack_%03d" % (j // 400), HDR + "Definition cases : list (list fobs * option (list fobs * Z * Z)) := [%s].\n"
                       "Eval vm_compute in (bad chk_stack cases).\n" % ";\n".join(L_st[j:j + 400]), L_st[j:j + 400], "stack_append"))
+        texts.append(("c10_impstack_%03d" % (j // 400), HDR + "Definition cases : list (list fobs * option (list fobs * Z * Z)) := [%s].\n"
+                      "Eval vm_compute in (bad chk_imp_stack cases).\n" % ";\n".join(L_st[j:j + 400]), L_st[j:j + 400], "imp_stack_append"))
     for j in range(0, len(L_rows), 400):
         texts.append(("c10_stackrows_%03d" % (j // 400), HDR + "Definition cases : list (list (list (list Z)) * option (Z * Z * oslice) * list (list Z)) := [%s].\n"
                       "Eval vm_compute in (bad chk_stack_rows cases).\n" % ";\n".join(L_rows[j:j + 400]), L_rows[j:j + 400], "stacked_lonlats"))
